@@ -405,3 +405,55 @@ Theorem results_json_roundtrip :
       exists p, encode_results tbl tbl_json logv log_json r = Some p /\
                 decode_results tbl tbl_read logv log_read (normalise p) = Some r.
 Proof. exact results_roundtrip_lemma. Qed.
+
+(* hash_separates_dataset for frames of DIFFERENT length (closes the gap left by
+   hash_separates_dataset_full): the byte stream has no length field, so what separates the two
+   streams is that the shorter frame's text begins where the longer one still has a row hash — the
+   one assumption is that this row hash does not read like the beginning of the column-name text
+   (Python writes "[" first; a collision-type assumption on the two compared inputs, like H_sep). *)
+Theorem hash_separates_dataset_length :
+  forall G dumps digest (H : string -> digest) rowhash repr_names repr_index repr_dtypes (f g : frame) (m : model G),
+    (forall r, String.length (rowhash r) = 8%nat) ->
+    let bytes := ds_bytes rowhash repr_names repr_index repr_dtypes in
+    let d := model_encode G (blank G m) in
+    (List.length (f_rows f) < List.length (f_rows g))%nat ->
+    (forall x y, rowhash (nth (List.length (f_rows f)) (f_rows g) nil) ++ x <> repr_names (f_columns f) ++ y) ->
+    H_sep H (bytes f ++ dumps d) (bytes g ++ dumps d) ->
+    key G dumps digest H (bytes f) m <> key G dumps digest H (bytes g) m.
+Proof. exact key_separates_frames_length. Qed.
+
+(* ---- the generic model code, end to end ---- *)
+
+(* generic_code_image: convert_model(m, 'generic'), .code (json.dumps of to_dict plus the two magic
+   keys), read_model_from_string (json.loads, Model.from_dict) returns exactly the JSON image of the
+   converted model — for every model; json enters through one equation on the one dictionary. *)
+Theorem generic_code_image :
+  forall G, engine_ok G -> forall (dumps : pyv -> string) (loads : string -> option pyv) version (m : model G),
+    loads (dumps (generic_code_dict G version (generic_convert G m))) =
+      Some (normalise (generic_code_dict G version (generic_convert G m))) ->
+    forallb (stmt_ok G) (m_statements G m) = true -> depvars_ok G m ->
+    (forall x, m_iie G m = Some x -> normalise x <> PNone) ->
+    generic_roundtrip G dumps loads version m = Some (model_json G (generic_convert G m)).
+Proof. exact generic_image. Qed.
+
+(* generic_code_roundtrip: the code parses back to the model itself up to name, description and data
+   path (which == does not look at), under one guard per open finding: derivatives are texts
+   (C12-DERIVATIVES-TEXT) and verbatim values are JSON-stable (C12-JSON-INTKEY) [step_json_ok,
+   column_json_ok, the iie condition]; value_type is the constructor default
+   (C12-GENERIC-VALUE-TYPE); the engine assumption engine_ok (C12-SREPR-DISTRIBUTES). *)
+Theorem generic_code_roundtrip :
+  forall G, engine_ok G -> forall (dumps : pyv -> string) (loads : string -> option pyv) version (m : model G),
+    loads (dumps (generic_code_dict G version (generic_convert G m))) =
+      Some (normalise (generic_code_dict G version (generic_convert G m))) ->
+    forallb (stmt_ok G) (m_statements G m) = true -> depvars_ok G m ->
+    forallb (step_json_ok G) (m_steps G m) = true ->
+    forallb (column_json_ok G) (di_columns G (m_datainfo G m)) = true ->
+    (forall x, m_iie G m = Some x -> is_json x = true /\ x <> PNone) ->
+    m_value_type G m = "PREDICTION" ->
+    generic_roundtrip G dumps loads version m = Some (strip G m).
+Proof. exact generic_code_roundtrip_lemma. Qed.
+
+(* ... and == cannot tell the read-back model from the original. *)
+Theorem strip_is_equal_for_eq :
+  forall G (m m' : model G), model_eq G (strip G m) m' = model_eq G m m'.
+Proof. exact model_eq_strip. Qed.
